@@ -112,11 +112,11 @@ Inductive iqtype := TGet | TSet | TOther.   (* TOther: result, error, anything e
 
 Inductive op :=
 | OSend (data : str) (nonza : bool)   (* nonza: the packet is an SMRequest or SMAnswer *)
-| OSendRaw (s : str)
+| OSendRaw (s : str) (nonza : bool)  (* nonza: the string's first element is an <r/> or <a/> of urn:xmpp:sm:3 *)
 | OSendIQ (data : str) (t : iqtype).
 
 Definition op_data (o : op) : str :=
-  match o with OSend d _ => d | OSendRaw s => s | OSendIQ d _ => d end.
+  match o with OSend d _ => d | OSendRaw s _ => s | OSendIQ d _ => d end.
 
 Inductive result :=
 | RNil                  (* nil *)
@@ -128,37 +128,57 @@ Inductive result :=
 Definition push_if (b : bool) (st : state) (data : str) : state :=
   if b then mkS (s_sock st) (s_log st) (q_push (s_queue st) data) else st.
 
+(* UnAckQueue.DropLast: the entry of the last Push leaves the queue again and its
+   sequence number is free for the next stanza *)
+Definition q_drop_last (q : qstate) : qstate :=
+  match rev (fst q) with
+  | (i, _) :: _ => if Z.eqb i (snd q) then (removelast (fst q), Z.pred (snd q)) else q
+  | [] => q
+  end.
+Definition drop_if (b : bool) (st : state) : state :=
+  if b then mkS (s_sock st) (s_log st) (q_drop_last (s_queue st)) else st.
+
+(* Client.writeHeld after the push (all under sendMu): a packet the transport
+   refuses was not sent on the session and leaves the queue again *)
+Definition hold_write (cfg : config) (so lo : oracle) (st : state) (hold : bool) (data : str)
+  : state * option werr :=
+  let st1 := push_if hold st data in
+  let '(st2, e) := transport_write cfg so lo st1 data in
+  match e with
+  | None => (st2, None)
+  | Some e' => (drop_if hold st2, Some e')
+  end.
+
 (* Client.Send / Component.Send after xml.Marshal *)
 Definition send (cfg : config) (so lo : oracle) (st : state) (data : str) (nonza : bool)
   : state * result :=
   match c_conn cfg with CNone => (st, RNotConn) | _ =>
   match c_role cfg with
   | RClient =>
-      let st1 := push_if (c_sm cfg && negb nonza) st data in
-      let '(st2, e) := transport_write cfg so lo st1 data in
+      let '(st2, e) := hold_write cfg so lo st (c_sm cfg && negb nonza) data in
       (st2, match e with None => RNil | Some e' => RErr e' end)
   | RComponent =>
-      let '(st2, e) := transport_write cfg so lo st data in
+      let '(st2, e) := hold_write cfg so lo st false data in
       (st2, match e with None => RNil | Some e' => RWrapped e' end)
   end end.
 
 (* Client.SendRaw / Component.SendRaw *)
-Definition send_raw (cfg : config) (so lo : oracle) (st : state) (s : str) : state * result :=
+Definition send_raw (cfg : config) (so lo : oracle) (st : state) (s : str) (nonza : bool)
+  : state * result :=
   match c_conn cfg with CNone => (st, RNotConn) | _ =>
   match c_role cfg with
   | RClient =>
-      let st1 := push_if (c_sm cfg) st s in
-      let '(st2, e) := transport_write cfg so lo st1 s in
+      let '(st2, e) := hold_write cfg so lo st (c_sm cfg && negb nonza) s in
       (st2, match e with None => RNil | Some e' => RErr e' end)
   | RComponent =>
-      let '(st2, e) := transport_write cfg so lo st s in
+      let '(st2, e) := hold_write cfg so lo st false s in
       (st2, match e with None => RNil | Some e' => RErr e' end)
   end end.
 
 Definition step (cfg : config) (so lo : oracle) (st : state) (o : op) : state * result :=
   match o with
   | OSend d nz => send cfg so lo st d nz
-  | OSendRaw s => send_raw cfg so lo st s
+  | OSendRaw s nz => send_raw cfg so lo st s nz
   | OSendIQ d t =>
       match t with
       | TOther => (st, RReject)
